@@ -1,6 +1,8 @@
 import MosnVerif.Lemmas.Updates
 import MosnVerif.Lemmas.UpdatesRm
+import MosnVerif.Lemmas.UpdatesMode
 import MosnVerif.Lemmas.DumpScript
+import MosnVerif.Lemmas.RouterLocksConc
 /-!
 # C12 — runtime updates are coherent and reproducible from the dumped config (property theorems only)
 
@@ -23,7 +25,7 @@ theorem coherent_routes (o : Oracle) (ops : List Op) :
     liveRouters (run o ops) = rebuildRouters o (dump (run o ops)) := by
   funext n
   have hI := inv_run o ops
-  simp only [liveRouters, rebuildRouters, dump]
+  simp only [liveRouters, rebuildRouters, dump, dumpRouter]
   cases hw : (run o ops).wrappers n with
   | none => simp [hI.r_none n hw]
   | some w =>
@@ -82,21 +84,89 @@ theorem coherent_listeners (o : Oracle) (ops : List Op) :
   funext n
   exact listeners_coherent (linv_run o ops) n
 
+/-! ## the mode a router is persisted in (static `virtual_hosts` / a `router_configs` directory) follows the updates; dump → reload
+
+`RouterCfg` carries `path` (`RouterConfigPath`) and `static` (`StaticVirtualHosts`); `SetRouter`'s transition — which of them goes
+where under which condition — is REGENERATED (`Gen.Updates.setRouter_*`); `dumpRouter` is `transferConfig` (stored router + the
+remembered path), `marshalRouter` / `unmarshalRouter` are `RouterConfiguration.MarshalJSON` / `UnmarshalJSON`. -/
+
+/-- **router_mode_follows_update**: after EVERY history (any mix of directory-mode, static and code-built router configurations,
+single-route additions, removals, failed and foreign operations), for every router: the remembered path is the path of the
+configuration its wrapper holds — the one of the last successful `AddOrUpdateRouters`, EMPTY when that update was static — and
+the dumped router is exactly that configuration. -/
+theorem router_mode_follows_update (o : Oracle) (ops : List Op) (n : String) (w : Wrapper)
+    (hw : (run o ops).wrappers n = some w) :
+    (run o ops).rpath n = w.cfg.path ∧ dumpRouter (run o ops) n = some w.cfg := by
+  have hI := inv_run o ops
+  exact ⟨hI.r_path n w hw, by rw [dumpRouter_of_inv hI, hw]; rfl⟩
+
+/-- **dump_reload_routers**: after every history of loader-shaped configurations (never both a directory and a static list — what
+`UnmarshalJSON` accepts), for every router name and every directory behaviour `fsr`: loading the dumped file SUCCEEDS and gives the
+router its wrapper holds (same name, same mode, the virtual hosts through the directory in directory mode). -/
+theorem dump_reload_routers (o : Oracle) (ops : List Op) (hops : ∀ op ∈ ops, opLoaderShaped op)
+    (fsr : List VHost → List VHost) (n : String) :
+    reloadRouter fsr (run o ops) n = ((run o ops).wrappers n).map (fun w => some (reloadedCfg fsr w.cfg)) := by
+  have hI := inv_run o ops
+  have hS := shinv_run o ops hops
+  simp only [reloadRouter, dumpRouter_of_inv hI]
+  cases hw : (run o ops).wrappers n with
+  | none => rfl
+  | some w => simp [unmarshal_marshal fsr _ (hS n w hw)]
+
+/-- **dump_reload_live**: … hence (the directory giving its files back in configuration order — virtual-host order is the only
+thing a directory changes, and matching does not depend on it) the routers built from the RELOADED dump are the live ones, for every
+router name: a restart from the persisted file reproduces the running proxy's routes. -/
+theorem dump_reload_live (o : Oracle) (ops : List Op) (hops : ∀ op ∈ ops, opLoaderShaped op)
+    (fsr : List VHost → List VHost) (hfs : ∀ l, fsr l = l) (n : String) :
+    (reloadRouter fsr (run o ops) n).map (fun r => r.map (build o)) = (liveRouters (run o ops) n).map some := by
+  rw [dump_reload_routers o ops hops fsr n]
+  have hI := inv_run o ops
+  simp only [liveRouters]
+  cases hw : (run o ops).wrappers n with
+  | none => rfl
+  | some w =>
+    have hb := (hI.r_some n w hw).2.2
+    have : build o (reloadedCfg fsr w.cfg) = build o w.cfg := by
+      apply build_congr; unfold reloadedCfg; split
+      · rfl
+      · exact hfs _
+    simp [this, hb]
+
+/-- **stale_path_breaks_reload** (negative witness, machine-checked): a store in which a router keeps a remembered directory path
+while its stored configuration came from a static file (what "copy the path only when the update carries one" leaves after
+directory-mode load → static update) is dumped with BOTH `router_configs` and `virtual_hosts`, and the loader refuses it — for
+every directory behaviour. -/
+theorem stale_path_breaks_reload (fsr : List VHost → List VHost) (s : State) (n : String) (c : RouterCfg)
+    (hs : s.rstore n = some c) (hstatic : c.static ≠ []) (hp : s.rpath n ≠ "") :
+    reloadRouter fsr s n = some none := by
+  simp only [reloadRouter, dumpRouter, hs, Option.map_some]
+  rw [unmarshal_marshal_both fsr { c with path := s.rpath n } hp hstatic]
+
+/-- the predicate of the `mode` cases (the dumped configuration loads again, and the routers built from it answer as the live
+ones) is true of the model's observation of every history of loader-shaped configurations. -/
+theorem spec_mode_holds_on_model (o : Oracle) (ops : List Op) (hops : ∀ op ∈ ops, opLoaderShaped op) (rnames : List String) :
+    Spec.modeHolds (modeObserve o rnames (run o ops)) = true :=
+  modeHolds_on_model o ops hops rnames
+
 /-! ## last update wins -/
 
-/-- **last_wins (routers)**: a successful `AddOrUpdateRouters cfg` leaves exactly `cfg` in the store and `NewRouters cfg` live,
-whatever happened before (from every state). -/
+/-- **last_wins (routers)**: a successful `AddOrUpdateRouters cfg` leaves exactly `cfg` in the store (the stored copy: its path
+cleared, the path itself remembered beside it — `cfg`'s, empty or not) and `NewRouters cfg` live, whatever happened before (from
+every state): the dumped router is `cfg` itself. -/
 theorem last_wins_routers (o : Oracle) (s : State) (cfg : RouterCfg)
     (hok : (step o s (.addOrUpdateRouters cfg)).2 = true) :
-    (step o s (.addOrUpdateRouters cfg)).1.rstore cfg.name = some cfg ∧
+    (step o s (.addOrUpdateRouters cfg)).1.rstore cfg.name = some (storedCfg cfg) ∧
+    (step o s (.addOrUpdateRouters cfg)).1.rpath cfg.name = cfg.path ∧
+    dumpRouter (step o s (.addOrUpdateRouters cfg)).1 cfg.name = some cfg ∧
     liveRouters (step o s (.addOrUpdateRouters cfg)).1 cfg.name = some (build o cfg) := by
+  have hst : ({ storedCfg cfg with path := cfg.path } : RouterCfg) = cfg := by unfold storedCfg; split <;> rfl
   simp only [step] at hok ⊢
   cases hw : s.wrappers cfg.name with
-  | none => simp [gen_recordsAddOrUpdate, recordRouter, liveRouters]
+  | none => simp [gen_recordsAddOrUpdate, gen_setRouterStores, rememberedPath_eq, recordRouter, liveRouters, dumpRouter, hst]
   | some w =>
     cases hb : build o cfg with
     | none => simp [hw, hb] at hok
-    | some t => simp [gen_recordsAddOrUpdate, recordRouter, liveRouters]
+    | some t => simp [gen_recordsAddOrUpdate, gen_setRouterStores, rememberedPath_eq, recordRouter, liveRouters, dumpRouter, hst]
 
 /-- **last_wins (single route)**: a successful `AddRoute` on a known router appends the route as the LAST route of the selected
 virtual host, in the live table and in the stored configuration, at the same index. -/
@@ -126,11 +196,11 @@ theorem last_wins_route (o : Oracle) (s : State) (hI : Inv o s) (rname domain : 
           · simp only [Option.some.injEq, Prod.mk.injEq] at ha'
             obtain ⟨rfl, rfl⟩ := ha'
             refine ⟨t, j, rfl, hr, { t with vhs := modifyAt (fun vh => { vh with routes := vh.routes ++ [r] }) t.vhs j },
-              { w.cfg with vhosts := modifyAt (fun vh => { vh with routes := vh.routes ++ [r] }) w.cfg.vhosts j }, ?_, ?_, ?_, ?_⟩
+              storedCfg { w.cfg with vhosts := modifyAt (fun vh => { vh with routes := vh.routes ++ [r] }) w.cfg.vhosts j }, ?_, ?_, ?_, ?_⟩
             · simp [step, hw, ht, ha, gen_addRoute, recordRouter, liveRouters]
-            · simp [step, hw, ht, ha, gen_addRoute, recordRouter, hname]
+            · simp [step, hw, ht, ha, gen_addRoute, gen_setRouterStores, recordRouter, hname]
             · simp only [modifyAt_getElem?, if_true, Option.map_map]; rfl
-            · simp only [modifyAt_getElem?, if_true, Option.map_map]; rfl
+            · simp only [storedCfg_vhosts, modifyAt_getElem?, if_true, Option.map_map]; rfl
           · cases ha'
         · cases ha'
 
@@ -305,11 +375,11 @@ theorem removed_gone_routes (o : Oracle) (s : State) (hI : Inv o s) (rname domai
         · simp only [Option.some.injEq, Prod.mk.injEq] at ha'
           obtain ⟨rfl, rfl⟩ := ha'
           refine ⟨t, j, rfl, hr, { t with vhs := modifyAt (fun vh => { vh with routes := [] }) t.vhs j },
-            { w.cfg with vhosts := modifyAt (fun vh => { vh with routes := [] }) w.cfg.vhosts j }, ?_, ?_, ?_, ?_⟩
+            storedCfg { w.cfg with vhosts := modifyAt (fun vh => { vh with routes := [] }) w.cfg.vhosts j }, ?_, ?_, ?_, ?_⟩
           · simp [step, hw, ht, ha, gen_removeAll, recordRouter, liveRouters]
-          · simp [step, hw, ht, ha, gen_removeAll, recordRouter, hname]
+          · simp [step, hw, ht, ha, gen_removeAll, gen_setRouterStores, recordRouter, hname]
           · simp only [modifyAt_getElem?, if_true, Option.map_map]; rfl
-          · simp only [modifyAt_getElem?, if_true, Option.map_map]; rfl
+          · simp only [storedCfg_vhosts, modifyAt_getElem?, if_true, Option.map_map]; rfl
         · cases ha'
 
 /-! ## failed, invalid and no-op operations -/
@@ -508,6 +578,65 @@ theorem spec_dump_holds_on_model (items : List Item) :
 
 end dump
 
+/-! ## concurrent mutators of one router: the LOCK STRUCTURE of `routers_manager.go`
+
+`Gen/RouterLocks`: every mutator as a step program in source order (regenerated): where `rw.mux` (read / write) and `rm.updateMux` are
+taken and released, and between which of them the wrapper is read, the live table modified, the configuration recorded.
+`Model/RouterLocks`: any number of calls, one thread each, run their programs under an arbitrary schedule; the wrapper holds
+pointers (table object modified in place, configuration object modified in place and copied by `SetRouter`). -/
+section locks
+open MosnVerif.Model.RouterLocks MosnVerif.Gen.RouterLocks
+
+/-- the regenerated lock structure: every mutator of an existing router holds the wrapper's WRITE lock from before its first read
+of the wrapper until after the configuration is recorded (everything outside is the map lookup, `NewRouters` of the call's own
+argument, or the manager mutex); the first `AddOrUpdateRouters` of a name publishes the wrapper and records its configuration
+under the manager mutex and the new wrapper's write lock; the readers of the request path take the read lock. -/
+theorem router_locks_discipline :
+    disciplined addOrUpdateRouters_found = true ∧ disciplined addRoute_found = true ∧ disciplined removeAllRoutes_found = true ∧
+    disciplined addRoute_absent = true ∧ disciplined removeAllRoutes_absent = true ∧ disciplined getRouterWrapperByName_found = true ∧
+    firstAddOk addOrUpdateRouters_absent = true ∧ readerOk getRouters = true ∧ readerOk getRoutersConfig = true := by decide
+
+/-- **mutators_serializable** (generic): for every step semantics whose outside steps are local, every family of calls whose
+programs have the lock discipline (any number of concurrent calls), every initial state and EVERY schedule: whenever nobody holds
+the write lock, the shared state is the one the calls that went through their critical section leave when they run ONE AFTER THE
+OTHER in the order `done` in which they released the lock (a list without repetition); a finished call that is not in it
+changes nothing when run alone. -/
+theorem mutators_serializable {S L : Type} (exec : Exec S L) (hloc : ∀ a, localStep a = true → LocalStep exec a)
+    (calls : Nat → Call L) (s0 : S) (hd : ∀ t, disciplined (calls t).prog = true) (sched : List Nat) :
+    (runSched exec (initConf calls s0) sched).done.Nodup ∧
+    ((runSched exec (initConf calls s0) sched).writer = none →
+      (runSched exec (initConf calls s0) sched).shared = serialS exec calls (runSched exec (initConf calls s0) sched).done s0) ∧
+    (∀ t, ((runSched exec (initConf calls s0) sched).threads t).todo = [] → t ∉ (runSched exec (initConf calls s0) sched).done →
+      Noop exec calls t) :=
+  serializable exec hloc calls s0 hd sched
+
+/-- **concurrent_coherent_routes**: router `n` exists in a coherent state `st` (e.g. after any history: `inv_run`); ANY number of
+concurrent `AddOrUpdateRouters` / `AddRoute` / `RemoveAllRoutes` calls for it (`ops t` = the call of thread `t`, valid or not) run
+the REGENERATED programs under ANY schedule. Whenever nobody holds the wrapper's write lock: there is an order of distinct calls
+such that the router's live table, wrapper configuration, stored configuration and remembered path are exactly those of the
+sequential history `order` of `Model/Updates` — and the live table is the one `NewRouters` builds from the stored configuration
+(`coherent_routes` for concurrent callers). -/
+theorem concurrent_coherent_routes (o : Oracle) (st : State) (hI : Inv o st) (n : String) (w : Wrapper)
+    (hw : st.wrappers n = some w) (ops : Nat → MOp) (hn : ∀ t, named n (ops t)) (sched : List Nat)
+    (hidle : (runSched (exec o) (initConf (callOf ops) (sharedOf st n w)) sched).writer = none) :
+    ∃ order : List Nat, order.Nodup ∧ ∃ w', (runFrom o st (order.map (fun t => toOp n (ops t)))).wrappers n = some w' ∧
+      view (runSched (exec o) (initConf (callOf ops) (sharedOf st n w)) sched).shared =
+        viewOf (runFrom o st (order.map (fun t => toOp n (ops t)))) n w' ∧
+      coherentView o (view (runSched (exec o) (initConf (callOf ops) (sharedOf st n w)) sched).shared) = true := by
+  have hd : ∀ t, disciplined (callOf ops t).prog = true := by
+    intro t
+    unfold callOf
+    cases ops t <;> simp only <;> decide
+  obtain ⟨hnd, hser, _⟩ := serializable (exec o) (exec_local o) (callOf ops) (sharedOf st n w) hd sched
+  obtain ⟨w', hw', hv⟩ := serial_view o n ops hn (runSched (exec o) (initConf (callOf ops) (sharedOf st n w)) sched).done
+    st hI w hw (sharedOf st n w) (view_sharedOf st n w)
+  refine ⟨_, hnd, w', hw', ?_, ?_⟩
+  · rw [hser hidle]; exact hv
+  · rw [hser hidle, hv]
+    exact coherent_viewOf o _ (inv_runFrom _ hI) n w' hw'
+
+end locks
+
 /-! ## non-vacuity: concrete histories exercising the hypotheses -/
 section examples
 /-- a simple concrete oracle (first virtual host listing the domain); the driver's `exOracle` works on lower-cased strings,
@@ -517,7 +646,25 @@ def h1 : Host := ⟨"127.0.0.1:80", "h1", 1⟩
 def h2 : Host := ⟨"127.0.0.1:81", "h2", 0⟩
 def h1' : Host := ⟨"127.0.0.1:80", "dup", 200⟩
 def rt (id : String) : Route := ⟨id, "/", true⟩
-def cfg1 : RouterCfg := ⟨"r", [⟨"v1", ["a.b"], [rt "x"]⟩, ⟨"v2", ["*"], []⟩]⟩
+def cfg1 : RouterCfg := { name := "r", vhosts := [⟨"v1", ["a.b"], [rt "x"]⟩, ⟨"v2", ["*"], []⟩] }
+
+-- mode: loaded from a directory, updated from a static file (and back), a route added in between
+def vhx : VHost := ⟨"v1", ["a.b"], [rt "x"]⟩
+def cfgDir : RouterCfg := { name := "r", vhosts := [vhx], path := "/etc/routers/r" }
+def cfgStatic : RouterCfg := { name := "r", vhosts := [vhx, ⟨"v2", ["*"], []⟩], static := [vhx, ⟨"v2", ["*"], []⟩] }
+def mhist : List Op := [.addOrUpdateRouters cfgDir, .addRoute "r" "a.b" (rt "y"), .addOrUpdateRouters cfgStatic, .addRoute "r" "*" (rt "z")]
+example : ∀ op ∈ mhist, opLoaderShaped op := by
+  intro op h
+  simp only [mhist, List.mem_cons, List.not_mem_nil, or_false] at h
+  rcases h with rfl | rfl | rfl | rfl <;> simp [opLoaderShaped, loaderShaped, cfgDir, cfgStatic]
+example : (run exOracle (mhist.take 2)).rpath "r" = "/etc/routers/r" ∧ (run exOracle mhist).rpath "r" = "" ∧
+    (run exOracle (mhist ++ [.addOrUpdateRouters cfgDir])).rpath "r" = "/etc/routers/r" := by decide
+example : ((reloadRouter (fun l => l) (run exOracle mhist) "r").map (·.map (fun c => (c.path, c.vhosts.map (fun v => v.routes.map (·.id)))))) =
+    some (some ("", [["x"], ["z"]])) := by decide
+-- stale_path_breaks_reload's hypotheses: the state "directory load, then static update whose empty path was not copied"
+example : let s : State := { run exOracle mhist with rpath := fun _ => "/etc/routers/r" }
+    (∃ c, s.rstore "r" = some c ∧ c.static ≠ []) ∧ s.rpath "r" ≠ "" ∧ reloadRouter (fun l => l) s "r" = some none := by
+  refine ⟨⟨_, rfl, by decide⟩, by decide, by decide⟩
 
 -- a history with successful, failing, repeated and no-op operations; the cluster exists at the end with distinct hosts
 def hist : List Op :=
@@ -563,5 +710,54 @@ example : (run exOracle [.addOrUpdateCluster "c" 1 [], .updateHosts "c" [h2]]).c
     rebuildClusters (dump (run exOracle [.addOrUpdateCluster "c" 1 [], .updateHosts "c" [h2]])) "c" = some ⟨1, [{ h2 with weight := 1 }]⟩ := by
   decide
 end examples
+
+/-! ## the read-lock-then-write-lock shape loses coherence (machine-checked witness) -/
+section lockWitness
+open MosnVerif.Model.RouterLocks MosnVerif.Gen.RouterLocks
+
+def cfgA : RouterCfg := { name := "r", vhosts := [⟨"v1", ["a.b"], [rt "x"]⟩] }
+def cfgB : RouterCfg := { name := "r", vhosts := [⟨"v1", ["a.b"], [rt "u"]⟩] }
+def stA : State := run exOracle [.addOrUpdateRouters cfgA]
+def wA : Wrapper := ⟨build exOracle cfgA, cfgA⟩
+/-- thread 0: `AddRoute` with the read-then-write shape; thread 1: a complete update by `cfgB` (regenerated program) -/
+def badCalls : Nat → Call Local := fun t =>
+  if t = 0 then ⟨addRouteReadThenWrite, { op := .addRoute "a.b" (rt "y"), me := 1 }⟩
+  else ⟨addOrUpdateRouters_found, { op := .update cfgB, me := t + 1 }⟩
+/-- `AddRoute` reads the wrapper (read lock), inserts the route unlocked; the complete update runs; `AddRoute` writes back -/
+def badSched : List Nat := List.replicate 8 0 ++ List.replicate 9 1 ++ List.replicate 6 0
+
+/-- **read_then_write_lock_incoherent** (negative witness, machine-checked): `AddRoute` reading table and configuration under
+the READ lock, inserting the route unlocked and taking the write lock only to record the configuration does NOT have the
+discipline, and the schedule "AddRoute reads and inserts; a complete `AddOrUpdateRouters` of the same router runs; AddRoute writes
+back" ends with every call finished, no lock held, the live table being the UPDATED one (route `u`) while the stored
+configuration is the OLD one plus the added route (`x`, `y`): live ≠ build (stored). The same two calls with the regenerated
+`AddRoute` under the same schedule stay coherent. -/
+theorem read_then_write_lock_incoherent :
+    stA.wrappers "r" = some wA ∧ disciplined addRouteReadThenWrite = false ∧
+    (let c := runSched (exec exOracle) (initConf badCalls (sharedOf stA "r" wA)) badSched
+     c.writer = none ∧ c.readers = [] ∧ c.mholder = none ∧ (c.threads 0).todo = [] ∧ (c.threads 1).todo = [] ∧
+     ((view c.shared).live.map (fun t => t.vhs.map (fun v => v.routes.map (·.id)))) = some [["u"]] ∧
+     (view c.shared).stored.vhosts.map (fun v => v.routes.map (·.id)) = [["x", "y"]] ∧
+     coherentView exOracle (view c.shared) = false) ∧
+    (let c := runSched (exec exOracle) (initConf (callOf (fun t => if t = 0 then .addRoute "a.b" (rt "y") else .update cfgB))
+        (sharedOf stA "r" wA)) badSched
+     coherentView exOracle (view c.shared) = true) := by decide
+
+-- mutators_serializable's hypotheses hold of the regenerated programs with the concrete steps (`exec_local`,
+-- `router_locks_discipline`), and the conclusion is not vacuous: under `badSched` (the update is blocked at the write lock while
+-- the AddRoute is inside) followed by the rest of the update, both calls go through their critical section — first the AddRoute,
+-- then the complete update — and the shared state is the sequential one of that order
+example :
+    let calls := callOf (fun t => if t = 0 then MOp.addRoute "a.b" (rt "y") else MOp.update cfgB)
+    let c := runSched (exec exOracle) (initConf calls (sharedOf stA "r" wA)) (badSched ++ List.replicate 9 1)
+    (∀ t, t < 2 → disciplined (calls t).prog = true) ∧ c.done = [0, 1] ∧ c.writer = none ∧
+    view c.shared = view (serialS (exec exOracle) calls [0, 1] (sharedOf stA "r" wA)) ∧
+    (view c.shared).stored.vhosts.map (fun v => v.routes.map (·.id)) = [["u"]] := by decide
+
+-- concurrent_coherent_routes' hypotheses: an existing router in a reachable state, calls that name it
+example : Inv exOracle stA ∧ stA.wrappers "r" = some wA ∧
+    (∀ t, named "r" ((fun t => if t = 0 then MOp.addRoute "a.b" (rt "y") else MOp.update cfgB) t)) :=
+  ⟨inv_run _ _, by decide, fun t => by by_cases h : t = 0 <;> simp [h, named, cfgB]⟩
+end lockWitness
 
 end MosnVerif.Props.C12
